@@ -32,21 +32,28 @@ Definition outcome_matches (o : outcome) (st v : Z) (xmbuff xmem_ xx : list Z) :
   | OFuel => st =? 3
   end.
 
-(* mode: 0 = compare model and specification; 1 = model only (the case is outside the
-   specification's claim, e.g. it exercises a listed known finding) *)
+(* mode mod 10: 0 = compare model and specification; 1 = model only (the case is outside the
+   specification's claim, e.g. it exercises a listed known finding);
+   mode >= 10: the program has no local call, so the stack-usage map has the single key 0
+   (avoids scanning very long programs at every step) *)
+Definition usage_of (mode : Z) (prog : list Z) (calc : option (Z * list (Z * Z))) : Z -> option Z :=
+  if mode <? 10 then usage_map prog (calc_of calc)
+  else fun pc => if pc =? 0 then Some (match calc_of calc with Some c => cast U16 (c 0) | None => 256 end) else None.
+
 Definition check_run (mode : Z) (prog : list Z) (mbuff mem_ xmem : region) (stack_base : Z) (ranges helpers : list (Z * Z))
     (calc : option (Z * list (Z * Z))) (fuel : Z) (st v : Z) (xmbuff xmem_ xx : list Z) : Z :=
-  let E := mk_env prog (helpers_of helpers) (usage_map prog (calc_of calc)) mbuff mem_ stack_base ranges in
+  let E := mk_env prog (helpers_of helpers) (usage_of mode prog calc) mbuff mem_ stack_base ranges in
   let m0 := mk_mem mbuff mem_ stack_base xmem in
   let model_ok := outcome_matches (run (Z.to_nat fuel) E m0) st v xmbuff xmem_ xx in
-  let spec_ok := if mode =? 0 then outcome_matches (isa_run (Z.to_nat fuel) E m0) st v xmbuff xmem_ xx else true in
+  let spec_ok := if mode mod 10 =? 0 then outcome_matches (isa_run (Z.to_nat fuel) E m0) st v xmbuff xmem_ xx else true in
   (if model_ok then 0 else 1) + (if spec_ok then 0 else 2).
 '''
 
 
 class Case:
     def __init__(self, prog, mem=b'', mbuff=b'', xmem=b'', ranges=(), helpers=(), calc=None, budget=10000,
-                 fam='', place='end', mode=0, note=''):
+                 fam='', place='end', mode=0, note='', prog_term=None):
+        self.prog_term = prog_term
         self.prog, self.mem, self.mbuff, self.xmem = bytes(prog), bytes(mem), bytes(mbuff), bytes(xmem)
         self.ranges, self.helpers, self.calc, self.budget = list(ranges), list(helpers), calc, budget
         self.fam, self.place, self.mode, self.note = fam, place, mode, note
@@ -115,7 +122,7 @@ def coq_term(c, a):
         calc = '(Some (%d, [%s]))' % (c.calc[0], '; '.join('(%d, %d)' % e for e in c.calc[1]))
     # at the time of an error the harness reports the memory as it is then; on a panic / budget nothing is compared
     return '(check_run %d %s %s %s %s %d %s %s %s %d %d %d %s %s %s)' % (
-        c.mode, zhex(c.prog), region(mbuffb, c.mbuff), region(memb, c.mem), region(xmemb, c.xmem), stackb, ranges, helpers, calc,
+        c.mode, c.prog_term or zhex(c.prog), region(mbuffb, c.mbuff), region(memb, c.mem), region(xmemb, c.xmem), stackb, ranges, helpers, calc,
         c.budget, a['status'], a['val'], zhex(a['mbuff']), zhex(a['mem']), zhex(a['xmem']))
 
 
